@@ -282,6 +282,17 @@ Theorem C20_driver_string_fragment_error : forall rc rf body fbody laa legacy tr
   rc ("{"%char :: body ++ ["}"%char]) = Ok mol -> rf ("{"%char :: fbody ++ ["}"%char]) laa = Err e ->
   drive rc rf ("{"%char :: body ++ "}"%char :: "."%char :: "{"%char :: fbody ++ ["}"%char]) laa legacy trs = Err e.
 Proof. exact driver_string_fragment_error. Qed.
+(** ... any number of blocks "{b0}.{b1}. ... .{bn}" *)
+Theorem C20_find_blocks_dotted : forall bodies, Forall (fun body => body <> [] /\ ~ In "}"%char body) bodies ->
+  find_blocks (dotted (map block_of bodies)) = map block_of bodies.
+Proof. exact find_blocks_dotted. Qed.
+Theorem C20_driver_blocks_fragment_error : forall rc rf body preB fb postB laa legacy trs mol e,
+  Forall (fun b => b <> [] /\ ~ In "}"%char b) (body :: preB ++ fb :: postB) ->
+  rc (block_of body) = Ok mol ->
+  Forall (fun b => exists d, rf (block_of b) false = Ok d) preB ->
+  rf (block_of fb) (aa_flag (map block_of postB) laa) = Err e ->
+  drive rc rf (dotted (map block_of (body :: preB ++ fb :: postB))) laa legacy trs = Err e.
+Proof. exact driver_blocks_fragment_error. Qed.
 (** read_fragments as `for fragment in split: strip_bonding_descriptors, template construction, first name wins`, for ANY
     template construction [mk] and dict insertion [add]: a fragment text strip_bonding_descriptors refuses, anywhere in the list *)
 Theorem C20_fragments_strip_error : forall fo mk add block aa pre nt post e,
@@ -423,3 +434,5 @@ Print Assumptions C20_coarse_fragments_strip_error.
 Print Assumptions C20_all_atom_fragments_strip_error.
 Print Assumptions C20_driver_all_atom_annotation_error.
 Print Assumptions C20_nonvacuous_driver_all_atom.
+Print Assumptions C20_find_blocks_dotted.
+Print Assumptions C20_driver_blocks_fragment_error.
